@@ -158,3 +158,41 @@ Record inv_constructed (t : itok) : Prop := {
   ic_meta : no_null_values (ik_meta t) = true /\ no_null_values (ik_args t) = true;
   ic_exp : opt_in53 (ik_exp t); ic_iat : opt_in53 (ik_iat t)
 }.
+
+(* ---- constructors: delegation.New / Root and invocation.New after the options have been applied:
+   a nonce is generated when none (or an empty one) was given, then validate() ---- *)
+Definition defined (d : did) : bool := negb ((fst d =? 0) && match snd d with [] => true | _ => false end).
+Definition default_nonce (given rand12 : str) : str := match given with [] => rand12 | _ => given end.
+Definition opt_in53b (z : option Z) : bool := match z with Some s => in53 s | None => true end.
+
+(* delegation.validate (error classes: 1 issuer, 2 audience, 3 nonce, 4 command, 5 time bounds, 6 policy integers) *)
+Definition dlg_validate (t : dtok) : res dtok :=
+  if negb (defined (dk_iss t)) then Err 1
+  else if negb (defined (dk_aud t)) then Err 2
+  else if (length (dk_nonce t) <? 12)%nat then Err 3
+  else if negb (is_ok (Command.parse (dk_cmd t))) then Err 4
+  else if negb (opt_in53b (dk_nbf t) && opt_in53b (dk_exp t)) then Err 5
+  else if negb (ints_in53 (pol_to_ipld (dk_pol t))) then Err 6
+  else Ok t.
+
+Definition dlg_new (iss aud : did) (sub : option did) (cmd : str) (pol : list tstmt) (nonce_given rand12 : str)
+                   (meta : list (str * node)) (nbf exp : option Z) : res dtok :=
+  dlg_validate {| dk_iss := iss; dk_aud := aud; dk_sub := sub; dk_cmd := cmd; dk_pol := pol;
+                  dk_nonce := default_nonce nonce_given rand12; dk_meta := meta; dk_nbf := nbf; dk_exp := exp |}.
+
+Definition inv_validate (t : itok) : res itok :=
+  if negb (defined (ik_iss t)) then Err 1
+  else if negb (defined (ik_sub t)) then Err 2
+  else if (length (ik_nonce t) <? 12)%nat then Err 3
+  else if negb (is_ok (Command.parse (ik_cmd t))) then Err 4
+  else if negb (opt_in53b (ik_exp t) && opt_in53b (ik_iat t)) then Err 5
+  else Ok t.
+
+(* WithAudience: an audience equal to the subject is not recorded *)
+Definition norm_aud (sub : did) (aud : option did) : option did :=
+  match aud with Some a => if did_eqb a sub then None else Some a | None => None end.
+
+Definition inv_new (iss sub : did) (aud : option did) (cmd : str) (args : list (str * node)) (prf : list str)
+                   (nonce_given rand12 : str) (meta : list (str * node)) (exp iat : option Z) (cause : option str) : res itok :=
+  inv_validate {| ik_iss := iss; ik_sub := sub; ik_aud := norm_aud sub aud; ik_cmd := cmd; ik_args := args; ik_prf := prf;
+                  ik_meta := meta; ik_nonce := default_nonce nonce_given rand12; ik_exp := exp; ik_iat := iat; ik_cause := cause |}.
